@@ -4,6 +4,7 @@ import (
 	"bufio"
 	"fmt"
 	"os"
+	"runtime/debug"
 	"strings"
 )
 
@@ -39,6 +40,8 @@ func main() {
 		fmt.Fprintln(os.Stderr, "usage: vh impl [oracle-req oracle-exp] | gen <family> <tier> <seed>")
 		os.Exit(2)
 	}
+	// a parser that recursed once per input field would need gigabytes of stack on long repetitions: cap it
+	debug.SetMaxStack(32 << 20)
 	switch os.Args[1] {
 	case "impl":
 		in := bufio.NewReaderSize(os.Stdin, 1<<20)
